@@ -190,6 +190,12 @@ ANNOUNCE_TX1 = H(A, 'c15_send_announce_one_tlv', tiers=TH, bounded='provider off
 ANNOUNCE_RX_PARENT = H(B, 'c11_announce_from_parent_updates_data_sets', functions=['statime/src/port/bmca.rs: Port::handle_announce', 'statime/src/datastructures/messages/announce.rs: AnnounceMessage::time_properties', 'statime/src/bmc/bmca.rs: Bmca::register_announce_message'])
 ANNOUNCE_RX_ACCEPT = H(B, 'c06_announce_accepted_effects')
 ANNOUNCE_RX_REJECT = H(B, 'c07_announce_unacceptable_or_own_is_frame')
+ANNOUNCE_TXP = H(A, 'c15_send_announce_own_path_trace', bounded='no forwarded TLV; path trace list <= 2 entries',
+                 functions=['statime/src/port/master.rs: Port::send_announce', 'statime/src/datastructures/messages/mod.rs: Message::announce'])
+ANNOUNCE_TX2 = H(A, 'c15_send_announce_two_tlvs', bounded='provider offers at most K = 2 TLVs per call; path trace off',
+                 functions=['statime/src/port/master.rs: Port::send_announce'])
+PATH_TRACE1 = H(B, 'c15_path_trace_one_entry', bounded='the Announce carries exactly one TLV, a PATH_TRACE with one identity',
+                functions=['statime/src/port/bmca.rs: Port::handle_announce'])
 PATH_TRACE = H(B, 'c15_path_trace_store_and_loop_discard', tiers=TH,
                bounded='the Announce carries exactly one TLV, a PATH_TRACE with <= 2 identities')
 RECEIPT_TIMER = H(B, 'c08_announce_receipt_timeout', functions=['statime/src/port/mod.rs: Port::{handle_announce_receipt_timer, set_forced_port_state}'])
@@ -214,6 +220,20 @@ FOREIGN = (
        H(F, 'c06_step_age_ages_and_expires__empty', bounded=_fm_bound),
        H(F, 'c06_step_age_ages_and_expires__one_single', tiers=TH, bounded=_fm_bound),
        H(Q, 'c06_take_best_keeps_age_and_needs_two__one_single', bounded=_fm_bound, functions=['statime/src/bmc/bmca.rs: Bmca::{take_best_port_announce_message, reregister_announce_message}']),
+       # modular call chain (callee replaced by a recording / contract stub): no payload abstraction on the
+       # message that is handed through; see kani/src/foreign_master.rs "MODULAR CALL CHAIN"
+       H(Q, 'c06_take_best_reregisters_erbest_with_its_age', bounded='take_qualified stub offers <= 2 candidates',
+         functions=['statime/src/bmc/bmca.rs: Bmca::{take_best_port_announce_message, reregister_announce_message, register_announce_message}']),
+       H(Q, 'c06_reregister_hands_age_to_list'),
+       H(F, 'c06_list_register_hands_age_to_record__one_single', bounded=_fm_bound),
+       H(F, 'c06_list_register_hands_age_to_record__pair_and_single', bounded=_fm_bound),
+       H(F, 'c06_record_register_appends_with_given_age__empty', bounded='record with 0 or 2 stored messages; purge removes nothing or everything'),
+       H(F, 'c06_record_register_appends_with_given_age__pair_kept', bounded='record with 0 or 2 stored messages; purge removes nothing or everything'),
+       H(F, 'c06_record_register_appends_with_given_age__pair_purged', bounded='record with 0 or 2 stored messages; purge removes nothing or everything'),
+       H(F, 'c06_record_register_at_capacity_drops_oldest', bounded='concrete instance: 8 stored messages with fixed payload'),
+       H(F, 'c06_record_purge_keeps_exactly_the_young__single', bounded='record with one stored message (two: CBMC out of memory in ArrayVec::retain)'),
+       H(F, 'c06_record_step_age_adds_step_then_purges', bounded='record with <= 2 stored messages'),
+       H(F, 'c06_list_step_age_removes_exactly_the_emptied__one_single', bounded='one record (two: CBMC out of memory in ArrayVec::remove)'),
        H(F, 'c06_register_at_capacity', bounded='concrete instance: 8 records built directly, fixed newcomer identity, arbitrary sequence id / stepsRemoved'),
        H(F, 'c06_finding_duplicate_sequence_id_counts', finding='F-C06-duplicate-sequence-id')]
 )
@@ -349,7 +369,7 @@ PROPS = {
     ),
     'C15': dict(
         verus=['tlv'],
-        kani=[ANNOUNCE_TX0, ANNOUNCE_TX1, ANNOUNCE_TX, PATH_TRACE, ANNOUNCE_RX_ACCEPT, H(MSG, 'c04_enum_tlv_type'), H('datastructures::common::tlv::verif_tlv::', 'c15_tlv_builder_add_matches_contract', bounded='TLV value length <= 8 octets', functions=['statime/src/datastructures/common/tlv.rs: TlvSetBuilder::{new, add, build}, Tlv::serialize'])],
+        kani=[ANNOUNCE_TX0, ANNOUNCE_TXP, ANNOUNCE_TX2, ANNOUNCE_TX1, ANNOUNCE_TX, PATH_TRACE1, PATH_TRACE, ANNOUNCE_RX_ACCEPT, H(MSG, 'c04_enum_tlv_type'), H('datastructures::common::tlv::verif_tlv::', 'c15_tlv_builder_add_matches_contract', bounded='TLV value length <= 8 octets', functions=['statime/src/datastructures/common/tlv.rs: TlvSetBuilder::{new, add, build}, Tlv::serialize'])],
         assumptions=PORT_ASSUME[:1] + ['daemon side (statime-linux TlvForwarder over a tokio broadcast channel): assumed contract "next_if_smaller(m) returns a TLV of size <= m, each at most once per receiver"; not verified',
                                        'ForwardTLV actions: the iterator yields the TLVs of the accepted Announce that satisfy announce_propagate (Verus tlv unit: TlvSetIterator::next, TlvType::announce_propagate); with_forward_tlvs is only reached on the accepted path (c06_announce_accepted_effects / c07_announce_unacceptable...)'],
     ),
@@ -364,7 +384,7 @@ PROPS = {
     ),
     'C17': dict(
         verus=[],
-        kani=INSTANCE + [ANNOUNCE_RX_PARENT, APPLY, H(M, 'c10_send_sync'), H(S, 'c09_send_e2e_delay_request'), RECEIPT_TIMER, ANNOUNCE_TX1, ANNOUNCE_TX,
+        kani=INSTANCE + [ANNOUNCE_RX_PARENT, APPLY, H(M, 'c10_send_sync'), H(S, 'c09_send_e2e_delay_request'), RECEIPT_TIMER, ANNOUNCE_TXP, ANNOUNCE_TX1, ANNOUNCE_TX,
                          th(H(M, 'c10_delay_resp_for_delay_req')), th(H(M, 'c10_pdelay_resp_for_pdelay_req')), th(H(S, 'c14_send_p2p_delay_request')), th(ANNOUNCE_RX_ACCEPT), th(ANNOUNCE_RX_REJECT)] + [th(h) for h in DISPATCH],
         assumptions=PORT_ASSUME[:1] + ['every harness runs over ChkLock, a PtpInstanceStateMutex that asserts acquisition depth 0 on every with_ref/with_mut; a guard cannot outlive a call (closure scoped), so "no operation nests an acquisition, from every valid state and input" is the all-histories statement',
                                        'atomicity of snapshots: each data-set update is one write acquisition (counted), each getter one read acquisition (counted); std::sync::RwLock / RefCell provide the mutual exclusion; no thread interleaving is explored (Kani has no threads)',
